@@ -158,6 +158,11 @@ var templates = []string{
 	// type names qualified by a path of namespaces whose later elements are not modules
 	"make(mod.x.T)", "new(mod.g.int64)", "[]mod.x.int64{}", "map[string]mod.g.T{}", "make([]mod.x.T, 1)", "make(chan mod.x.T)", "module m3 { module m4 { y = 1 } }\nmake(m3.m4.y.T)", "module m3 { module m4 { y = 1 } }\nmake(m3.m4.int64)\nnew(m3.y.T)\nmake(m3.m4.m5.T)",
 	"module m3 { m4 = %s }\nmake(m3.m4.T)", "make(mod.%s.T)", "make(type TQ, 1)\nmodule m3 { make(type TR, %s) }\nmake(m3.TR)\nmake(m3.TQ)\nmake(m3.TR.x)",
+	// every binary operator over number-like operands (%n): zero, fractions that truncate to zero, numeral strings of
+	// every spelling, booleans, nil, the int64 extremes - a guard that tests one reading of an operand while the
+	// operation uses another (float vs truncated integer, string vs parsed number) shows here
+	"%n + %n", "%n - %n", "%n * %n", "%n / %n", "%n %% %n", "%n & %n", "%n | %n", "%n << %n", "%n >> %n", "%n < %n", "%n == %n", "-%n", "^%n",
+	"x = %n\nx += %n\nx -= %n\nx *= %n\nx /= %n\nx", "x = %n\nx++\nx--\nx", "make([]int64, %n)", "l[%n]", "l[%n:%n]", "\"ab\" * %n", "for x in %n { }", "toInt(%n) %% toInt(%n)", "toInt(%n) %% toFloat(%n)",
 	"try { %s(%s) } catch e { e.Error() }", "try { throw %s } catch e { e = %s }", "module m2 { a = %s }; m2.a(%s)", "x = %s; x.y = %s", "x = %s; x[0] = %s; x",
 }
 
@@ -167,6 +172,11 @@ func (c *Case) fill(t *rapid.T, tmpl string) string {
 		if tmpl[i] == '%' && i+1 < len(tmpl) {
 			if tmpl[i+1] == 's' {
 				b.WriteString(genOperand(t, 1))
+				i++
+				continue
+			}
+			if tmpl[i+1] == 'n' {
+				b.WriteString(pickU(t, "numlike", numLike))
 				i++
 				continue
 			}
@@ -208,6 +218,10 @@ func genOperand(t *rapid.T, depth int) string {
 // pointers, invalid dereferences, huge sizes, structs with interface fields
 var hotOperands = []string{"pl[0]", "il[0]", "n", "nil", "p", "ps", "*p", "&i", "st", "si", "mod", "ch", "uc", "fn", "l", "m", "tl", "tm", "s", "i",
 	"9223372036854775807", "-9223372036854775808", "72057594037927936", "make([]*int64, 2)", "make(map[string]*int64)", "new(struct{A int64})", "[nil]", "id(nil)", "[p][0]", "make(*int64)", "ll[0]", "m.b", "ty", "*ty", "make(type T2, 1)", "make(type T3, l)", "(*ty).t", "make(uint64)", "make([]byte, 2)[0]", "[]uint64{1, 18446744073709551615}[1]", "make(int32)", "make(float32)"}
+
+// number-like operands for the operator templates
+var numLike = []string{"0", "1", "-1", "7", "0.5", "-0.5", "0.0", "-0.0", "2.5", "1e308", "1e-320", `"0"`, `"0.5"`, `"2.5"`, `"1e3"`, `"-0"`, `"0x10"`, `""`, `"a"`, `" 1"`, "true", "false", "nil",
+	"9223372036854775807", "-9223372036854775808", "i", "f", "s", "make(uint64)", "make(float32)", "[]float32{0.5}[0]", "[]byte{255}[0]", "id(0.5)", "[0.5][0]", "toFloat(0)", "(0.0 / 0.0)", "(1 / 0.0)"}
 
 // pickU draws an element without rapid's bias towards the head of the list (the draw is hashed),
 // so that every template and operand gets its share.
